@@ -258,15 +258,16 @@ class Prop(Check):
         "Link.C10_pinned_false",
     ]
     DRIVER = "Drivers/Link.lean"
-    QUICK_CASES = 700
-    THOROUGH_CASES = 20000
+    QUICK_CASES = 450
+    THOROUGH_CASES = 30000
     RULE = ("trees of nested named packages, classes with members, unnamed groups (3..16 objects, names from a pool of "
             "3..5 so that names repeat at different depths; ~12% with duplicate sibling names, checked against the model "
             "only) with friend / likes / ref references between them x in-text dotted names (valid, spurious through "
             "parent or reference edges, unknown) x ~30 direct provider calls per loaded model (walks of <=4 steps over "
             "containment / parent / reference edges from the referencing object's ancestors, random and malformed "
-            "names, all target classes); non-trivial = some dotted name of the case has >= 2 parts, or its first part "
-            "is carried by >= 2 objects, or it follows a parent / reference edge")
+            "names, all target classes); non-trivial = the case has a spurious candidate: a dotted name that would "
+            "resolve if `parent` or reference attributes were followed but that matches no containment chain of the "
+            "target type (cases needing the outward search with shadowing / multi-part chains are counted separately)")
     MODELLED = ("hand-modelled: scoping/providers.py FQN.__call__ (_find_referenced_obj, _find_obj_fqn, find_obj after "
                 "the repair: containment attributes only) as Link.fqn/findReferenced/findObjFqn/walk/findObj, parent "
                 "links as Link.pathTo; tie X: target identity per reference / Unknown object + offending reference, "
@@ -607,16 +608,55 @@ class Prop(Check):
                 return f"FQN provider called from object #{cur} for '{nm}' -> {t}: {g}, by the statement {w}"
         return None
 
+    def kinds(self, case, obs):
+        """per case: does some dotted name (a) need the outward search with a multi-part chain or shadowing,
+        (b) have a spurious candidate: it would resolve if `parent` / reference attributes were followed, but no
+        containment chain exists"""
+        objs, refs = build(case)
+        edges = {}
+        for r in refs:
+            if r["attr"] != "target":
+                tgt = spec_fqn(objs, r["owner"], r["name"], r["t"])
+                if tgt is not None:
+                    edges.setdefault(r["owner"], []).append(tgt)
+
+        def loose(cur, dotted, t):
+            parts = dotted.split(".")
+            p = cur
+            while p is not None:
+                front = [p]
+                for n in parts:
+                    nxt = []
+                    for x in front:
+                        cand = list(objs[x]["kids"]) + edges.get(x, [])
+                        if objs[x]["parent"] is not None:
+                            cand.append(objs[x]["parent"])
+                        nxt += [y for y in cand if objs[y]["name"] == n]
+                    front = nxt
+                if any(objs[y]["k"] in CONF[t] for y in front):
+                    return True
+                p = objs[p]["parent"]
+            return False
+
+        triples = [(r["owner"], r["name"], r["t"]) for r in refs]
+        if obs["outcome"] == "ok":
+            triples += [tuple(p) for p in case["probes"]]
+        outward = spurious = False
+        for cur, nm, t in triples:
+            w = spec_fqn(objs, cur, nm, t)
+            if w is not None:
+                parts = nm.split(".")
+                if chain_end(objs, cur, parts) != w and (len(parts) >= 2 or sum(1 for o in objs if o["name"] == parts[0]) >= 2):
+                    outward = True
+            elif loose(cur, nm, t):
+                spurious = True
+        return outward, spurious
+
     def nontrivial(self, case, obs):
         if obs["outcome"] not in ("ok", "error"):
             return False
-        objs, refs = build(case)
-        names = [r["name"] for r in refs] + ([p[1] for p in case["probes"]] if obs["outcome"] == "ok" else [])
-        for nm in names:
-            parts = nm.split(".")
-            if len(parts) >= 2 or sum(1 for o in objs if o["name"] == parts[0]) >= 2:
-                return True
-        return False
+        outward, spurious = self.kinds(case, obs)
+        return spurious
 
     # --------------------------------------------------------------- shrink
     def shrink(self, case):
@@ -627,24 +667,43 @@ class Prop(Check):
                 c = copy.deepcopy(case)
                 c["probes"] = [case["probes"][i]]
                 yield c
-        # numbering changes when nodes are removed: only try removals that keep the probes meaningful (no probes left)
-        if len(case["probes"]) <= 1:
-            def containers(node):
-                yield node
-                for a in ("packages", "groups"):
-                    for ch in node.get(a, []):
-                        yield from containers(ch)
-
-            idx = 0
-            for cont in list(containers(case["tree"])):
-                for a in ("packages", "classes", "groups", "refs"):
-                    for i in range(len(cont.get(a, []))):
-                        c = copy.deepcopy(case)
-                        tgt = list(containers(c["tree"]))[idx]
-                        del tgt[a][i]
-                        c["probes"] = []
-                        yield c
-                idx += 1
+        n = len(build(case)[0])
+        # remove one package / group / class / ref statement (with its content); probes are renumbered
+        for victim in range(1, n):
+            c = copy.deepcopy(case)
+            objs = build(c)[0]
+            v = objs[victim]
+            if v["node"] is None:
+                continue
+            for o in objs:
+                if o["node"] is not None and o["k"] != "model":
+                    o["node"]["_old"] = o["id"]
+            par = objs[v["parent"]]
+            pnode = c["tree"] if par["k"] == "model" else par["node"]
+            attr = {"package": "packages", "group": "groups", "class": "classes", "ref": "refs"}[v["k"]]
+            pnode[attr] = [x for x in pnode[attr] if x is not v["node"]]
+            remap = {0: 0}
+            for o in build(c)[0]:
+                if o["node"] is not None and o["k"] != "model":
+                    old = o["node"].pop("_old")
+                    remap[old] = o["id"]
+                    if o["k"] == "class":
+                        nmem = (1 if o["node"].get("main") is not None else 0) + len(o["node"].get("members", []))
+                        for d in range(1, nmem + 1):
+                            remap[old + d] = o["id"] + d
+            v["node"].pop("_old", None)
+            c["probes"] = [[remap[cur], nm, t] for cur, nm, t in c["probes"] if cur in remap]
+            yield c
+        # drop friend / likes / members of a class
+        for victim in range(1, n):
+            o = build(case)[0][victim]
+            if o["k"] != "class":
+                continue
+            for key in ("friend", "likes"):
+                if o["node"].get(key):
+                    c = copy.deepcopy(case)
+                    build(c)[0][victim]["node"].pop(key)
+                    yield c
 
     def sample_view(self, case, obs):
         return {"variant": case["variant"], "text": render(case)[0], "probes": case["probes"][:8],
@@ -655,7 +714,7 @@ class Prop(Check):
 
     def extra_evidence(self, cases, obs, model_outs):
         dist = {}
-        nrefs = nprobes = resolved = dup = spurious = 0
+        nrefs = nprobes = resolved = dup = spurious = outward = 0
         for c, o in zip(cases, obs):
             if not isinstance(o, dict) or "outcome" not in o:
                 continue
@@ -668,6 +727,11 @@ class Prop(Check):
             if o["outcome"] == "ok":
                 nprobes += len(o["probes"])
                 resolved += sum(1 for p in o["probes"] if isinstance(p, int))
+            if o["outcome"] in ("ok", "error"):
+                ow, sp = self.kinds(c, o)
+                outward += ow
+                spurious += sp
         return {"distribution": dist, "in_text_references": nrefs, "direct_provider_calls": nprobes,
                 "direct_calls_resolved": resolved, "cases_with_duplicate_sibling_names": dup,
+                "cases_with_spurious_candidate": spurious, "cases_needing_outward_search": outward,
                 "user_class_cases": sum(1 for c in cases if c.get("user"))}
